@@ -1,0 +1,8 @@
+//go:build !verif
+
+// Package verifhook marks the schedule points the verification harness (/verif) can observe, perturb or
+// hold. Without the build tag `verif` Point is an empty function the compiler inlines away.
+package verifhook
+
+// Point names a place in the engine's protocols where goroutines race.
+func Point(name string) {}
